@@ -15,7 +15,7 @@ func init() {
 	register(&Property{
 		ID:          "C20",
 		NeedSSA:     true,
-		Decided:     "Structural necessary conditions for history independence of the codecs: (dst) in every Encode/Decode method under compress/ the reusable output buffer is only truncated (dst[:0]), measured with cap(), passed to a helper obeying the same rule or to a listed library routine that treats it as scratch, or returned — its previous length and content are never observed and it is never re-sliced up to its old capacity; (pool) an object taken from a pool is not used after it was put back, an object that received Close is put back only after a Reset, the reset closure given to Pool.Get re-targets the stream, and a reader whose Reset failed is dropped instead of pooled; (stateless) Encode/Decode of every compress.Codec implementation write no field of the codec value (shared by all writers and readers) other than its pools; (tables) each entry of the codec table is the implementation whose CompressionCodec() returns its key. (result) every caller of Codec.Encode/Decode (and of the pooled Compressor/Decompressor) that passes a destination buffer takes the returned slice on every non-failing path (returns, stores, passes it on, or compares it by identity with the buffer); (pool, cont.) a function that returns memory held in a field of a pooled object replaces that field before the object is put back. (retry) from the failure edge of a fallible call in a loop some path leaves the loop without passing the call again, and no test on that path measures (len/cap) the buffer just allocated for the next attempt in place of the one that failed; (pool, cont.) the decompressor pools a reader only on the nil edges of both its Reset error and the function's own error, and panics of the functions handed to Pool.Get are recovered by a deferred function, registered after the deferred release so that the release runs once the panic has become the error result. (bound) every buffer that reaches the destination argument of a block compressor (CompressBlock) is sized by the library's bound: made with a length computed from CompressBlockBound, returned by a module helper that was given that bound, or the caller's buffer re-sliced on the false edge of `cap(buf) < n` with n computed from the bound. (readtoeof) a function of the compress packages that reads a decompressing reader in a loop returns from it only on the non-nil edge of a test of the error that Read returned.",
+		Decided:     "Structural necessary conditions for history independence of the codecs: (dst) in every Encode/Decode method under compress/ the reusable output buffer is only truncated (dst[:0]), measured with cap(), passed to a helper obeying the same rule or to a listed library routine that treats it as scratch, or returned — its previous length and content are never observed and it is never re-sliced up to its old capacity; (pool) an object taken from a pool is not used after it was put back, an object that received Close is put back only after a Reset, the reset closure given to Pool.Get re-targets the stream, and a reader whose Reset failed is dropped instead of pooled; (stateless) Encode/Decode of every compress.Codec implementation write no field of the codec value (shared by all writers and readers) other than its pools; (tables) each entry of the codec table is the implementation whose CompressionCodec() returns its key. (result) every caller of Codec.Encode/Decode (and of the pooled Compressor/Decompressor) that passes a destination buffer takes the returned slice on every non-failing path (returns, stores, passes it on, or compares it by identity with the buffer); (pool, cont.) a function that returns memory held in a field of a pooled object replaces that field before the object is put back. (retry) from the failure edge of a fallible call in a loop some path leaves the loop without passing the call again, and no test on that path measures (len/cap) the buffer just allocated for the next attempt, or compares the size computed for it, in place of the buffer that failed; (pool, cont.) the decompressor pools a reader only on the nil edges of both its Reset error and the function's own error, and panics of the functions handed to Pool.Get are recovered by a deferred function, registered after the deferred release so that the release runs once the panic has become the error result. (bound) every buffer that reaches the destination argument of a block compressor (CompressBlock) is sized by the library's bound: made with a length computed from CompressBlockBound, returned by a module helper that was given that bound, or the caller's buffer re-sliced on the false edge of `cap(buf) < n` with n computed from the bound. (readtoeof) a function of the compress packages that reads a decompressing reader in a loop returns from it only on the non-nil edge of a test of the error that Read returned.",
 		NotDecided:  "losslessness; the behaviour of the third-party compressors; sizing arithmetic of output buffers (for instance the worst-case bound an LZ4 block needs).",
 		Assumptions: []string{"the listed library routines (snappy, lz4, zstd EncodeAll/DecodeAll) treat dst as scratch per their documentation"},
 		Run:         runC20,
